@@ -186,7 +186,7 @@ def _base(recipe):
         # drop degenerate (collinear boundary) triangles
         a, b, c = pts[:, tri[0]], pts[:, tri[1]], pts[:, tri[2]]
         area = 0.5 * np.abs((b[0] - a[0]) * (c[1] - a[1]) - (b[1] - a[1]) * (c[0] - a[0]))
-        tri = tri[:, area > 1e-10]
+        tri = tri[:, area > 1e-10 * L[0] * L[1]]
         return pp.TriangleGrid(np.vstack([pts, np.zeros(pts.shape[1])]), tri.astype(int))
     if kind == "poly":
         nx, ny = n
@@ -219,7 +219,7 @@ def _box_perturb(g, L, frac, pseed):
     d = np.zeros_like(g.nodes)
     d[:dim] = rng.uniform(-1, 1, size=(dim, g.num_nodes)) * frac * h
     for k in range(dim):
-        on = (np.abs(g.nodes[k]) < 1e-12) | (np.abs(g.nodes[k] - L[k]) < 1e-12)
+        on = (np.abs(g.nodes[k]) < 1e-12 * L[k]) | (np.abs(g.nodes[k] - L[k]) < 1e-12 * L[k])
         d[k, on] = 0.0
     g.nodes = g.nodes + d
 
@@ -279,8 +279,10 @@ def k_orthogonal(recipe) -> bool:
 def valid_cells(g) -> bool:
     """Generator's own validity predicate (independent of compute_geometry results
     for 2-D: every cell is a strictly convex polygon)."""
+    # thresholds are relative to the extent of the grid (recipes may be scaled)
+    ext = float(np.max(np.ptp(g.nodes, axis=1))) or 1.0
     if g.dim == 1:
-        return bool(np.all(g.cell_volumes > 1e-12))
+        return bool(np.all(g.cell_volumes > 1e-12 * ext))
     if g.dim == 2:
         R = pp.map_geometry.project_plane_matrix(g.nodes, check_planar=False) \
             if np.ptp(g.nodes[2]) > 1e-14 else np.eye(3)
@@ -297,11 +299,11 @@ def valid_cells(g) -> bool:
             for k in range(m):
                 a, b, c2 = p[:, k], p[:, (k + 1) % m], p[:, (k + 2) % m]
                 cr.append((b[0] - a[0]) * (c2[1] - b[1]) - (b[1] - a[1]) * (c2[0] - b[0]))
-            if min(cr) <= 1e-10:
+            if min(cr) <= 1e-10 * ext ** 2:
                 return False
         return True
     # 3-D: positive volumes and face centres strictly outside-ward of cell centres
-    if not np.all(g.cell_volumes > 1e-14):
+    if not np.all(g.cell_volumes > 1e-14 * ext ** 3):
         return False
     fi, ci, sgn = sps.find(g.cell_faces)
     d = np.sum(g.face_normals[:, fi] * (g.face_centers[:, fi] - g.cell_centers[:, ci]), axis=0)
@@ -320,7 +322,8 @@ EXTRA_KINDS = {1: ["graded"], 2: ["nonconvex"], 3: []}
 
 
 def random_recipe(rng, dims=(1, 2, 3), kinds=None, max_cells=60, perturb=True,
-                  affine=True, rigid=False, planar_only=False, simplex_only=False):
+                  affine=True, rigid=False, planar_only=False, simplex_only=False,
+                  scales=None):
     """Draw a valid recipe.  ``rigid``: False | True | "embedded" (only dim<3)."""
     for _ in range(50):
         dim = int(rng.choice(list(dims)))
@@ -343,6 +346,11 @@ def random_recipe(rng, dims=(1, 2, 3), kinds=None, max_cells=60, perturb=True,
         else:
             n = [int(rng.integers(1, 4)), int(rng.integers(1, 4)), int(rng.integers(1, 3))]
         L = [float(np.round(rng.uniform(0.5, 3.0), 3)) for _ in range(dim)]
+        if scales is not None and rng.random() < 0.2:
+            # physical size far from one (micrometre / kilometre domains): absolute
+            # tolerances hidden in the code under test show up only here
+            sc = float(rng.choice(list(scales)))
+            L = [v * sc for v in L]
         r = {"kind": kind, "dim": dim, "n": n, "phys": L,
              "tseed": int(rng.integers(0, 2**31)), "perturb": 0.0, "pseed": 0,
              "affine": None, "rigid": None}
